@@ -255,6 +255,10 @@ def model_out(case, resp, check_spec=True):
     if isinstance(resp, dict) and "run" in resp:
         if check_spec and "spec" in resp and fw.key(resp["run"]) != fw.key(resp["spec"]):
             return {"model run and spec differ": resp}
+        if "sim" in resp and fw.key(resp["run"]) != fw.key(resp["sim"]):
+            return {"two-stream run and scheduler simulation differ": resp}
+        if "sim2" in resp and fw.key(resp["run2"]) != fw.key(resp["sim2"]):
+            return {"two-stream run and scheduler simulation differ (second subscription)": resp}
         if "run2" in resp:
             if check_spec and fw.key(resp["run2"]) != fw.key(resp["spec2"]):
                 return {"model run and spec differ (second subscription)": resp}
